@@ -914,6 +914,7 @@ func c16RunHash(t *fw.T) {
 // ---------------------------------------------------------------------------------------------
 
 var c16Corpus = gen.Words("0.5e-99px", "+50.0%", "-.5E+7em", "data:text/plain;charset=utf-8;base64,dGV4dA==", "data:,a%20b+c",
+	"data:;charset=utf-8,hello", "data:;charset=utf-8;base64,aGVsbG8=", "data:;a=b,x%20y", "data:;base64,QQ==", "data:;x=1;y=2,z",
 	"data:image/svg+xml,%3Cpath%20stroke-width='9.38%'/%3E", " text/plain  ; charset = US-ASCII ", "text/plain;inline=;base64",
 	"%20%3F%7E%2b", "a+b%", "keyframes", "plaintext", "font-face", " \t\r\n\f", "\xc3\xbf   ", "Abc[]{}@`")
 var c16Dict = gen.Words("data:", ";base64", ",", ";", "=", " ", "%", "%4", "%41", "%2b", "+", "-", ".", "e", "E", "e+", "1", "9", "px", "%%",
